@@ -24,10 +24,10 @@ def shapes(tier: str) -> List[tuple]:
     return [(3,), (1,), (2, 3), (3, 1), (1, 1), (2, 3, 2), (1, 2, 3), (3, 2, 2), (2, 1, 2), (2, 3, 4)]
 
 
-def cfg(D: int, laws: bool, tier: str, rich: bool = True) -> str:
+def cfg(D: int, laws: bool, tier: str, rich: bool = True, konly: bool = False) -> str:
     s = ("SPECIFICATION Spec\nCONSTANTS\n"
          f" D = {D}\n AllOrders = {'TRUE' if tier == 'thorough' else 'FALSE'}\n"
-         f" Rich = {'TRUE' if rich else 'FALSE'}\n")
+         f" Rich = {'TRUE' if rich else 'FALSE'}\n KOnly = {'TRUE' if konly else 'FALSE'}\n")
     if laws:
         s += "".join(f"INVARIANT {x}\n" for x in LAWS)
     else:
@@ -213,6 +213,10 @@ def main(tier: str) -> int:
         big = len(s) >= 4 and tier != "thorough"
         jobs.append(dict(module="Convert_Gen", cfg_text=cfg(0, True, tier, rich=not big), defs=d, timeout=2400))
         jobs.append(dict(module="Convert_Gen", cfg_text=cfg(1, False, tier, rich=not big), defs=d, timeout=2400))
+    # Kruskal / Tucker holders of order 5 and unbalanced order 4 (three or more factors in one Khatri-Rao group)
+    for s in ([(2, 2, 2, 2, 2), (2, 3, 2, 7)] if tier == "quick" else [(2, 2, 2, 2, 2), (2, 3, 2, 7), (7, 2, 3, 2), (2, 1, 3, 2, 2), (2, 2, 2, 2, 2, 2)]):
+        jobs.append(dict(module="Convert_Gen", cfg_text=cfg(1, False, tier, rich=False, konly=True),
+                         defs={"ShapeC": tla.tla(list(s))}, timeout=2400))
     sim_shapes = [(2, 3, 2), (1, 2, 3), (2, 3)] if tier == "quick" else \
         [(2, 3, 2), (1, 2, 3), (3, 2, 1), (2, 2, 2, 2), (2, 3), (3, 3, 2), (2, 3, 4)]
     nsim = 150 if tier == "quick" else 3000
